@@ -265,17 +265,33 @@ Lemma empty_list {A} (l : list A) : (forall x, ~ In x l) -> l = [].
 Proof. destruct l; auto. intros H. exfalso. apply (H a). left; auto. Qed.
 
 (* ---- add_rule_key ---- *)
-Lemma add_rule_key_final pick fuel st r st' : Final st ->
-  add_rule_key pick fuel st r = Some st' ->
-  Final st' /\ rules st' = rules st ++ [r].
+(* the state add_rule_key hands to _process_queue *)
+Definition pre_process (st : tm) (r : fkey) : tm :=
+  let f1 := extend_key (fn st) r in
+  let st1 := mktm (rules st ++ [r]) f1 (gsize st) (cgap st) (queue st) (held st) in
+  let st2 := if gsize st <? max_abs r
+             then correct_gap (mktm (rules st1) f1 (max_abs r) (cgap st1) (queue st1) (held st1))
+             else st1 in
+  match getf (fn st2) (parent r) with
+  | None => st2
+  | Some _ => mktm (rules st2) (fn st2) (gsize st2) (cgap st2)
+                   (queue st2 ++ [length (rules st)]) (held st2)
+  end.
+
+Lemma add_rule_key_pre pick fuel st r :
+  add_rule_key pick fuel st r = process pick fuel (pre_process st r).
+Proof. reflexivity. Qed.
+
+Lemma pre_process_inv st r : Final st ->
+  Inv (pre_process st r) [] /\ rules (pre_process st r) = rules st ++ [r].
 Proof.
-  intros F H. unfold add_rule_key in H.
+  intros F. unfold pre_process.
   set (f1 := extend_key (fn st) r) in *.
   destruct (extend_key_length (fn st) r) as (Hl & Hlp & Hlk). fold f1 in Hl, Hlp, Hlk.
   pose proof (final_extend st f1 F (extend_key_getf (fn st) r) Hl) as FE.
   destruct FE as ((C & W & (Gk & Gs & Gok)) & Hq & Hh & HX). simpl in Hq, Hh.
   destruct F as (_ & Hq0 & Hh0 & _).
-  rewrite Hq0, Hh0 in *.
+  rewrite Hq0, Hh0 in *. cbn [rules fn gsize cgap queue held].
   set (g' := if gsize st <? max_abs r then max_abs r else gsize st).
   set (stA := mktm (rules st ++ [r]) f1 g' (cgap st) [] []).
   assert (incl (rules st) (rules st ++ [r])) as Hincl by (apply incl_appl, incl_refl).
@@ -314,30 +330,32 @@ Proof.
       + apply empty_list. intros j Hj. destruct (proj2 (Eq j) (or_introl Hj)) as [[]|[]].
       + apply empty_list. intros j Hj. destruct (proj2 (Eq j) (or_intror Hj)) as [[]|[]].
     - csplit; auto. unfold Gap; simpl. csplit; auto. }
-  set (st3 := match getf (fn st2) (parent r) with
-              | None => st2
-              | Some _ => mktm (rules st2) (fn st2) (gsize st2) (cgap st2)
-                               (queue st2 ++ [length (rules st)]) (held st2)
-              end) in *.
-  assert (Inv st3 [] /\ rules st3 = rules st ++ [r]) as [I3 R3].
-  { assert (forall j, (j < length (rules st2))%nat -> can_fire (fn st2) (rule_at st2 j) = true ->
-              j = length (rules st) /\ exists p, getf (fn st2) (parent r) = Some p) as Hnew.
-    { intros j Hj Hfj. unfold rule_at in Hfj. rewrite R2, F2 in *. rewrite app_length in Hj; simpl in Hj.
-      destruct (Nat.lt_ge_cases j (length (rules st))) as [Hlt|Hge].
-      - rewrite Hold in Hfj by auto. discriminate.
-      - assert (j = length (rules st)) as -> by lia. split; auto.
-        rewrite app_nth2, Nat.sub_diag in Hfj by lia. simpl in Hfj.
-        destruct (can_fire_true _ _ Hfj) as (p & Hp & _). exists p; auto. }
-    unfold st3. destruct (getf (fn st2) (parent r)) as [p|] eqn:Ep.
-    - split; [|simpl; auto]. split; [|split; [|exact G2]].
-      + constructor; simpl; try apply C2.
-        rewrite Q2, H2. split; [|intros j []]. intros j [<-|[]].
-        rewrite R2, app_length. simpl. lia.
-      + intros j Hj Hfj. simpl in *. destruct (Hnew j Hj Hfj) as [-> _].
-        left. rewrite Q2. left; auto.
-    - split; auto. split; [exact C2|split; [|exact G2]].
-      intros j Hj Hfj. destruct (Hnew j Hj Hfj) as [_ [p Hp]]. congruence. }
-  destruct (process_inv pick fuel st3 st' I3 H) as (I' & Q' & H' & R' & _).
+  assert (forall j, (j < length (rules st2))%nat -> can_fire (fn st2) (rule_at st2 j) = true ->
+            j = length (rules st) /\ exists p, getf (fn st2) (parent r) = Some p) as Hnew.
+  { intros j Hj Hfj. unfold rule_at in Hfj. rewrite R2, F2 in *. rewrite app_length in Hj; simpl in Hj.
+    destruct (Nat.lt_ge_cases j (length (rules st))) as [Hlt|Hge].
+    - rewrite Hold in Hfj by auto. discriminate.
+    - assert (j = length (rules st)) as -> by lia. split; auto.
+      rewrite app_nth2, Nat.sub_diag in Hfj by lia. simpl in Hfj.
+      destruct (can_fire_true _ _ Hfj) as (p & Hp & _). exists p; auto. }
+  destruct (getf (fn st2) (parent r)) as [p|] eqn:Ep.
+  - split; [|simpl; auto]. split; [|split; [|exact G2]].
+    + constructor; simpl; try apply C2.
+      rewrite Q2, H2. split; [|intros j []]. intros j [<-|[]].
+      rewrite R2, app_length. simpl. lia.
+    + intros j Hj Hfj. simpl in *. destruct (Hnew j Hj Hfj) as [-> _].
+      left. rewrite Q2. left; auto.
+  - split; auto. split; [exact C2|split; [|exact G2]].
+    intros j Hj Hfj. destruct (Hnew j Hj Hfj) as [_ [p Hp]]. congruence.
+Qed.
+
+Lemma add_rule_key_final pick fuel st r st' : Final st ->
+  add_rule_key pick fuel st r = Some st' ->
+  Final st' /\ rules st' = rules st ++ [r].
+Proof.
+  intros F H. rewrite add_rule_key_pre in H.
+  destruct (pre_process_inv st r F) as [I3 R3].
+  destruct (process_inv pick fuel _ st' I3 H) as (I' & Q' & H' & R' & _).
   split; [|congruence]. split; [exact I'|csplit; auto]. apply exit_gap; auto.
 Qed.
 
